@@ -21,7 +21,7 @@ checks = {
              text="For every node of every error-free tree of the workload: start/end = first/last own token under the documented conventions, nesting, sibling order, lines.",
              note="Conventions encoded are exactly those in the property text and DESIGN §6 C05.", ref="§6 C05"),
  "C06": dict(technique="runtime monitor over recorded error-callback event sequences; guaranteed-breaking edits (counting argument, PHP 5 compile-time errors, unterminated last heredoc) as fault injection; callback-vs-nil and nested-parse (re-entrancy) differential monitors",
-             text="Valid generated programs with an edit that is invalid by a bracket/operator counting argument must deliver >= 1 error, as must PHP 5 compile-time errors (trait extends/implements, reference key) and a lengthened closing label of the last heredoc; every delivered error is checked for message, range, line, order; callback vs nil trees compared by full fingerprint.",
+             text="Valid generated programs with an edit that is invalid by a bracket/operator counting argument must deliver >= 1 error, as must PHP 5 compile-time errors (trait extends/implements, reference key) and a lengthened closing label of the last heredoc; every delivered error is checked for message, range, line, order; callback vs nil trees compared by full fingerprint; the real CLI (-e -p) over directories of malformed files must print, per file, exactly the errors delivered for that file alone.",
              note="'Invalid' is only asserted for edits invalid by construction.", ref="§6 C06"),
  "C07": dict(technique="runtime monitor: prefix-statement equality oracle, ordered-subsequence oracle on multi-error files, and provenance checker on printed recovery trees",
              text="Statement lists with a benign malformed statement inserted: preceding statements must equal their stand-alone parse (tokens, positions), following ones must be present; burst cases with up to 90 malformed statements between well-formed ones (top level or function body), all of which must be found again in order; every tree returned with errors is printed through the provenance writer: only source chunks, once, in order.",
